@@ -343,6 +343,21 @@ def rule_keyword_boundary(prog):
             if src_t == "char" and dst_t in ("u8", "i8"):
                 n_cast += 1
                 bad = cs
+    # ... and its value is its code point: nowhere in the front end is a `char` narrowed to a byte (the value of the character literal
+    # `'€'` is 8364, not 172)
+    bad_v = None
+    for lb in c.bodies:
+        f_ = c.file_of(lb["sp"])
+        if f_.endswith("lexer.rs") or "/lexer/" in f_ or "/tests" in f_ or not f_.startswith("spl_frontend/src"):
+            continue
+        for cs in hir.nodes(lb["body"], "Cast"):
+            src_t = c.tstr(cs["e"]["t"]) if "t" in cs.get("e", {}) else ""
+            dst_t = c.tstr(cs["t"]) if "t" in cs else ""
+            if src_t == "char" and dst_t in ("u8", "i8", "u16", "i16"):
+                bad_v = (lb, cs)
+    out.add("front end", "the value of a character is its code point (no `char as u8`)", bad_v is None,
+            c.loc(bad_v[1]["sp"]) if bad_v else "", "`c as u8` in `%s`: every character outside Latin-1 gets the value of an unrelated "
+            "character (`'€'` = 172)" % (bad_v[0]["d"] if bad_v else ""), ("charvalue",))
     out.add("lexer character classes", "no character is narrowed to a byte before it is classified", bad is None,
             c.loc(bad["sp"]) if bad else c.loc(an0["sp"]),
             "`c as u8` keeps only the low 8 bits: `Ł` (U+0141) becomes `A`, so non-ASCII letters are accepted inside identifiers and end "
